@@ -11,18 +11,27 @@ wt=/tmp/wt/tryp
 [ -f $src/patch.diff ] || { echo "no $src/patch.diff"; exit 2; }
 if [ ! -d $wt ]; then git -C /repo worktree add -q --detach $wt HEAD || exit 2; fi
 git -C $wt checkout -q --detach $(git -C /repo rev-parse HEAD); git -C $wt checkout -q -- .; git -C $wt clean -qfd -e target
+# PHASE=1: only the confirmation on the scratch worktree (result cached); PHASE=2: use the cached
+# confirmation and run the checks; unset: both
+cache=/tmp/wt/vet1/$id-$x.txt
+if [ "${PHASE:-}" = 2 ] && [ -f $cache ]; then
+  . $cache
+else
 # demonstration on the clean tree
 (bash $src/run.sh $wt >/tmp/wt/vet-clean.log 2>&1); rc_clean=$?
 git -C $wt apply $src/patch.diff || { echo "patch does not apply"; exit 2; }
 tests=$(cd $wt && cargo test --workspace --offline -j 8 2>&1 | grep -E "^test result|^error" | awk '/^error/ {e=1} {p+=$4; f+=$6} END {print "passed=" p " failed=" f " builderror=" e+0}')
 (bash $src/run.sh $wt >/tmp/wt/vet-mut.log 2>&1); rc_mut=$?
 git -C $wt checkout -q -- .; git -C $wt clean -qfd -e target
+mkdir -p /tmp/wt/vet1; printf 'tests="%s"\nrc_clean=%s\nrc_mut=%s\n' "$tests" "$rc_clean" "$rc_mut" > $cache
+fi
 echo "$id-$x: tests[$tests] demo_clean_rc=$rc_clean demo_with_change_rc=$rc_mut"
 ok=1
 case "$tests" in *"passed=44 failed=0 builderror=0"*) ;; *) ok=0;; esac
 [ $rc_clean -eq 0 ] || ok=0
 [ $rc_mut -ne 0 ] || ok=0
 if [ $ok -ne 1 ]; then echo "$id-$x: NOT CONFIRMED, not kept"; exit 3; fi
+[ "${PHASE:-}" = 1 ] && exit 0
 res=$(SKIP_TESTS=1 /verif/tools/try_patch.sh $src/patch.diff $tier "$@" 2>&1)
 echo "$res"
 mkdir -p $dst
